@@ -699,16 +699,12 @@ def rule_va_enum(cx, rep, port):
     okm = ('for idx, column_name in enumerate(column_names)' in tm and 'index=idx' in tm) if port == 'py' else ('column_name = column_names[i]' in tm and "'index': i" in tm)
     rep.decide(okm, 'direct variables', fm, 'bare name -> its header position', 'direct-mode names are no longer bound to their header position')
     # regexes
+    from .pa import regexes_of
     pats = {}
     for fd in (fa, fdv, fm):
-        for c in ast.walk(fd):
-            if isinstance(c, ast.Constant) and isinstance(c.value, str) and ('[_a-zA-Z]' in c.value or '[^_a-zA-Z0-9]' in c.value):
-                pats.setdefault(fd.name, []).append(c.value)
-            if isinstance(c, ast.JoinedStr):
-                v = ''.join(x.value if isinstance(x, ast.Constant) else '{}' for x in c.values)
-                if '[^_a-zA-Z0-9]' in v:
-                    pats.setdefault(fd.name, []).append(v)
-    a_ok = any(x.replace('\\\\', '\\') in ('(?:^|[^_a-zA-Z0-9]){}\\.([_a-zA-Z][_a-zA-Z0-9]*)',) for x in pats.get('parse_attribute_variables', []))
+        # the patterns the function applies, wherever and however they are written (holes of templates appear as X)
+        pats[fd.name] = [pt for pt, ic, nd in regexes_of(cx, port, fd, depth=0)]
+    a_ok = any(x in ('(?:^|[^_a-zA-Z0-9])X\\.([_a-zA-Z][_a-zA-Z0-9]*)',) for x in pats.get('parse_attribute_variables', []))
     rep.decide(a_ok, 'attribute regex', fa, 'a.<identifier> preceded by a non-identifier character', 'attribute-variable pattern changed: {}'.format(pats.get('parse_attribute_variables')))
     m_ok = any(x in ('^[_a-zA-Z][_a-zA-Z0-9]*$',) for x in pats.get('map_variables_directly', []))
     rep.decide(m_ok, 'direct-mode name check', fm, 'names must be identifiers (anchored)', 'direct-mode identifier check changed: {}'.format(pats.get('map_variables_directly')))
